@@ -1454,6 +1454,10 @@ class Py2Cpp(ITranspiler):
 	def proc_binary_operation_expression(self, node: defs.BinaryOperator, left_raw: IReflection, right_raws: list[IReflection], left: str, operators: list[str], rights: list[str]) -> str:
 		primary = left
 		primary_raw = left_raw
+		# XXX 文字列リテラル同士の`+`はC++ではポインター同士の加算になり不正なため、左辺をstd::stringに変換
+		if operators[0] == '+' and node.elements[0].is_a(defs.String) and node.elements[2].is_a(defs.String):
+			primary = f'{self.to_accessible_name(left_raw)}({primary})'
+
 		for index, right_raw in enumerate(right_raws):
 			operator = operators[index]
 			secondary = rights[index]
